@@ -163,7 +163,9 @@ func Scribble(rs []*result.CertRevocationResult) {
 }
 
 // IsHTTPKind reports whether a URL kind is served over the simulated network.
-func IsHTTPKind(k string) bool { return k == "http" || k == "HTTP" || k == "httpq" || k == "httpc" }
+func IsHTTPKind(k string) bool {
+	return k == "http" || k == "HTTP" || k == "httpq" || k == "httpc" || k == "same"
+}
 
 // Outcome is everything observed from one execution.
 type Outcome struct {
